@@ -46,6 +46,17 @@ def nullable_used():
     return sorted(used)
 
 
+def witness_only(replayer):
+    """history replayer for the properties stated per call (C01, C02, C05, ...): a frame violation counts against them only
+    with a witness history in hand; without one it is left to the frame checks (C07, C19) and stays undecided here"""
+    def replay(ob):
+        r = replayer(ob)
+        if isinstance(r, dict) and r.get("confirmed") is None:
+            r = dict(r, confirmed=False)
+        return r
+    return replay
+
+
 def run_class(key, clauses, nullable=False):
     """clauses: subset of {'write', 'match', 'trunc', 'general'}; returns summary dicts"""
     from checks import l1_serial as L1
@@ -64,7 +75,7 @@ def run_class(key, clauses, nullable=False):
                         "undecided": ["closure returned by entity_writer is not recognised"], "functions": []})
         else:
             from checks import frames
-            for r in L1.verify_writer(reg, w, c, label=f"L2/{short}", history_replayer=frames.history_replayer(key)):
+            for r in L1.verify_writer(reg, w, c, label=f"L2/{short}", history_replayer=witness_only(frames.history_replayer(key))):
                 r.unit = r.unit.replace("L1/writer/", "")
                 out.append(common.summarise(r, [common.function_record(w)]))
     rd = [c for c in ("match", "trunc", "general") if c in clauses]
@@ -125,7 +136,7 @@ def run_roundtrip(key):
     short = key.replace("kio.schema.", "")
     res = Result(f"L2/{short}/roundtrip")
     from checks import frames
-    res.history_replayer = frames.history_replayer(key)
+    res.history_replayer = witness_only(frames.history_replayer(key))
 
     def run(ctx):
         x = schema_spec.generic_entity(ctx, T, "x")
